@@ -63,7 +63,8 @@ def prog_die(rng, sigs=None, in_except=False):
         p.append(['sleep', rng.choice([0.05, 0.5])])
     r = rng.random()
     if r < 0.6:
-        d = ['die', rng.choice(sigs or [SIGKILL, SIGKILL, SIGSEGV, SIGTERM, SIGABRT, SIGHUP, SIGQUIT])]
+        # (40, 63: real-time signals, which have no name in the signal module; 7 = SIGBUS)
+        d = ['die', rng.choice(sigs or [SIGKILL, SIGKILL, SIGSEGV, SIGTERM, SIGABRT, SIGHUP, SIGQUIT, 40, 63, 7])]
     elif r < 0.85:
         d = ['os_exit', rng.choice([0, 1, 2, 70, 155, 255])]
     else:
@@ -162,6 +163,9 @@ def gen_C01(rng, tier):
             add_applies(rng, c, ops, 1, opts={'bad_arg': True})
         elif pc.get('timeout') is None:
             add_map(rng, c, ops, n=rng.choice([1, 3, 6]), fail=rng.choice([0, 0.2]))
+        elif rng.random() < 0.4:
+            # the result arrives at the very moment the scanner is failing the job for its time limit
+            add_applies(rng, c, ops, 1, mk=lambda: [['until', 'hard-intent', 12.0], ['ret', rng.randint(0, 99)]])
         else:
             add_applies(rng, c, ops, 1, mk=lambda: prog_long(rng, rng.choice([0.5, 2.0, 4.5])))
         if rng.random() < 0.1 and len(ops) > 0 and ops[-1][0] == 'apply':
@@ -170,6 +174,27 @@ def gen_C01(rng, tier):
         u2 = []
         add_applies(rng, c, u2, rng.randint(1, 2))
         case['users'].append(u2)
+    if pc.get('timeout') is not None and rng.random() < 0.6:
+        for _ in range(rng.randint(1, 2)):
+            add_applies(rng, c, ops, 1, mk=lambda: [['until', 'hard-intent', 12.0], ['ret', rng.randint(0, 99)]])
+    if rng.random() < 0.15 and pc.get('timeout') is None:
+        # terminate_job() on one job while another job's worker dies on its own at about the same time (both
+        # exits seen by one supervision pass): each failure must stay with its own job
+        # (these are the first jobs, on idle workers, so that they really run side by side)
+        pc['processes'] = max(pc['processes'], 3)
+        pc['maxtasksperchild'] = None
+        s = rng.choice([0.2, 0.5, 0.9])
+        pre = []
+        ua = add_applies(rng, c, pre, 1, mk=lambda: prog_long(rng, 3.0))[0]
+        add_applies(rng, c, pre, 1, mk=lambda: [['sleep', s], ['die', rng.choice([SIGKILL, SIGSEGV])], ['tick', 1],
+                                                ['ret', 1]])
+        if rng.random() < 0.5:
+            add_applies(rng, c, pre, 1, mk=lambda: [['sleep', s], ['ret', 5], ])
+        pre = [o for o in pre if o[0] != 'sleep']
+        pre.append(['wait_accepted', ua, 5.0])
+        pre.append(['sleep', max(0.0, round(s + rng.choice([-0.15, -0.05, 0.0, 0.1, 0.3]), 3))])
+        pre.append(['terminate_job', ua])
+        ops[0:0] = pre
     if rng.random() < 0.2:
         # message duplication: ACK / READY messages some worker already sent arrive a second time
         if pc.get('timeout') is None and rng.random() < 0.7:
@@ -189,8 +214,12 @@ def gen_C02(rng, tier):
         if r < 0.75:
             add_map(rng, c, ops, fail=rng.choice([0, 0, 0.15, 0.4]))
         else:
+            # (deep: the function raises from under hundreds of frames, up to beyond the recursion limit)
             add_applies(rng, c, ops, rng.randint(1, 3),
-                        mk=lambda: prog_raise(rng) if rng.random() < 0.4 else prog_ok(rng))
+                        mk=lambda: prog_raise(rng, deep=rng.random() < 0.4) if rng.random() < 0.4 else prog_ok(rng))
+    if rng.random() < 0.15:
+        # an empty input after the pool has already processed something
+        add_map(rng, c, ops, kind=rng.choice(['imap', 'imap_unordered', 'map']), n=0)
     return case
 
 
@@ -240,13 +269,15 @@ def gen_C04(rng, tier):
             ndie += 1
             kind = rng.choice(['map', 'starmap', 'imap', 'imap_unordered'])
             n = rng.choice([1, 2, 3, 5])
-            dpos = rng.randrange(n)
+            dpos = rng.choice([0, rng.randrange(n)])
             st = {'i': 0}
+            # some parts still running when the loss is reported (the lost-worker timeout is 1-10 s)
+            slow = rng.choice([[0, 0.05, 0.3], [0, 0.3, 1.6, 3.5]])
 
             def mk():
                 i = st['i']
                 st['i'] += 1
-                return prog_die(rng) if i == dpos else prog_ok(rng, maxticks=2, sleep=rng.choice([0, 0.05, 0.3]))
+                return prog_die(rng) if i == dpos else prog_ok(rng, maxticks=2, sleep=rng.choice(slow))
             add_map(rng, c, ops, kind=kind, n=n, mkitem=mk, chunks=rng.choice([1, 1, 2, None]))
         else:
             add_map(rng, c, ops, n=rng.choice([2, 4, 8]))
@@ -295,7 +326,10 @@ def gen_C05(rng, tier):
             if own:
                 opts['timeout'] = own
             prog = prog_long(rng, dur)
-            if lim and rng.random() < 0.3:
+            if lim and rng.random() < 0.12:
+                # the result arrives at the very moment the scanner is failing the job
+                prog = [['until', 'hard-intent', lim + 4.0], ['ret', rng.randint(0, 99)]]
+            elif lim and rng.random() < 0.3:
                 # a soft limit before the hard one, in a task that catches it and goes on: the hard limit
                 # must still be enforced
                 opts['soft_timeout'] = round(lim * rng.choice([0.3, 0.6]), 3)
